@@ -29,6 +29,9 @@ AMBIENT = ("rand::rngs::thread::rng", "rand::random", "rand::random_range", "ran
 
 
 def run(facts, tr, rep):
+    # judged on the fully inlined program: the call future may be built in a private function, the draws may sit in a
+    # closure handed to a lock helper of a private generator newtype, the injection step in a helper that returns Err
+    facts, tr = facts.inl, tr.inl
     _n_ops = check_no_panicking_time_arith(facts, tr, rep, "C19.NO-PANIC-ARITH", facts.crates[CRATE].bodies)
     rep.note("panicking Instant/Duration operators examined in the crate: %d" % _n_ops)
     sbs = service_call_bodies(facts, crate=CRATE)
